@@ -725,4 +725,184 @@ end Ex
 
 end C09
 
+-- ====================================================================== 3. C11: the `-c` filter
+section C11
+
+/-! #### the loop: skipping ignored items, and an option the machines only store -/
+section Loop
+variable {κ σ τ ο : Type}
+
+def Sess.mapSt {α : Type} (f : α → α) (s : Sess α) : Sess α := { s with st := f s.st }
+
+/-- items the loop ignores can be removed from the capture -/
+theorem runItems_filter_ignored (TM : TlsMachine κ σ ο) (QM : QuicMachine κ τ ο) (o : Opts) (keep : Item κ → Bool)
+    (xs : List (Item κ)) (h : ∀ it ∈ xs, keep it = false → ∃ w, classify o it = .ignore w) :
+    ∀ st, runItems TM QM o st xs = runItems TM QM o st (xs.filter keep) := by
+  induction xs with
+  | nil => intro st; rfl
+  | cons it xs ih =>
+    intro st
+    have ih' := ih (fun x hx => h x (by simp [hx]))
+    cases hk : keep it with
+    | true =>
+      simp only [List.filter_cons, hk, if_true, runItems, List.foldl_cons] at ih' ⊢
+      exact ih' _
+    | false =>
+      obtain ⟨w, hw⟩ := h it (by simp) hk
+      simp only [List.filter_cons, hk, Bool.false_eq_true, if_false, runItems, List.foldl_cons] at ih' ⊢
+      have : step TM QM o st it = st := by simp [step, hw]
+      rw [this]; exact ih' st
+
+/-- Two option records `o`, `o'` with the same server ports that classify the items of `xs` alike, and machines whose
+    new sessions under `o'` are the `f` / `g` images of those under `o`, with `f`, `g` commuting with `feed` and
+    invisible to the CID sets: the run under `o'` is the image of the run under `o`. -/
+theorem runItems_opts_congr (TM : TlsMachine κ σ ο) (QM : QuicMachine κ τ ο) (o o' : Opts) (f : σ → σ) (g : τ → τ)
+    (hports : o'.ports = o.ports)
+    (hTn : ∀ p, TM.new o' p = f (TM.new o p)) (hTf : ∀ s p, TM.feed (f s) p = f (TM.feed s p))
+    (hQn : ∀ p, QM.new o' p = g (QM.new o p)) (hQf : ∀ s kl p d v, QM.feed (g s) kl p d v = g (QM.feed s kl p d v))
+    (hcc : ∀ s, QM.clientCids (g s) = QM.clientCids s) (hsc : ∀ s, QM.serverCids (g s) = QM.serverCids s)
+    (xs : List (Item κ)) (hcl : ∀ it ∈ xs, classify o' it = classify o it) :
+    ∀ st : State κ σ τ,
+      runItems TM QM o' ⟨st.keylog, st.tls.map (Sess.mapSt f), st.quic.map (Sess.mapSt g)⟩ xs =
+        (let r := runItems TM QM o st xs; ⟨r.keylog, r.tls.map (Sess.mapSt f), r.quic.map (Sess.mapSt g)⟩) := by
+  have hT : ∀ (ss : List (TlsSess σ)) (p : Pkt),
+      tlsHandle TM o' (ss.map (Sess.mapSt f)) p = (tlsHandle TM o ss p).map (Sess.mapSt f) := by
+    intro ss p
+    induction ss with
+    | nil =>
+      have hc : candidate o' p = candidate o p := by simp [candidate, hports]
+      simp only [tlsHandle, List.map_nil, hc]
+      cases candidate o p with
+      | true => simp [tlsNew, hports, hTn, Sess.mapSt]
+      | false => rfl
+    | cons s rest ih =>
+      simp only [tlsHandle, List.map_cons]
+      have : (Sess.mapSt f s).matches p = s.matches p := rfl
+      rw [this]
+      split
+      · simp [Sess.mapSt, hTf]
+      · rw [ih]; rfl
+  have hQ : ∀ (kl : List κ) (h : Hdr) (ss : List (QuicSess τ)) (p : Pkt),
+      quicHandleH QM o' kl h (ss.map (Sess.mapSt g)) p = (quicHandleH QM o kl h ss p).map (Sess.mapSt g) := by
+    intro kl h ss p
+    unfold quicHandleH
+    split
+    · rfl
+    · induction ss with
+      | nil =>
+        simp only [quicLoop, List.map_nil]
+        split
+        · rfl
+        · simp [quicNew, hports, hQn, hQf, Sess.mapSt]
+      | cons s rest ih =>
+        simp only [quicLoop, List.map_cons]
+        have : quicTake QM h p (Sess.mapSt g s) = quicTake QM h p s := by
+          simp only [quicTake, Sess.mapSt, hcc, hsc]
+          rfl
+        rw [this]
+        cases quicTake QM h p s with
+        | some c => simp [Sess.mapSt, hQf]
+        | none => simp only [ih]; rfl
+  induction xs with
+  | nil => intro st; rfl
+  | cons it xs ih =>
+    intro st
+    have ih' := ih (fun x hx => hcl x (by simp [hx]))
+    simp only [runItems, List.foldl_cons] at ih' ⊢
+    have hs : step TM QM o' ⟨st.keylog, st.tls.map (Sess.mapSt f), st.quic.map (Sess.mapSt g)⟩ it =
+        (let r := step TM QM o st it; ⟨r.keylog, r.tls.map (Sess.mapSt f), r.quic.map (Sess.mapSt g)⟩) := by
+      simp only [step, hcl it (by simp)]
+      cases classify o it with
+      | keys ks => rfl
+      | tls p => simp only [hT]
+      | quic p b0 r => simp only [hQ]
+      | ignore w => rfl
+    rw [hs]
+    exact ih' _
+
+end Loop
+
+/-! #### the composed machines only STORE `-c` -/
+
+def optC (o : Opts) (b : Bool) : Opts := { o with checksumTest := b }
+def connC (b : Bool) (c : Pipeline.Conn) : Pipeline.Conn := { c with opts := optC c.opts b }
+def qconnC (b : Bool) (c : QuicPipeline.QConn) : QuicPipeline.QConn := { c with opts := optC c.opts b }
+
+variable (info : Nat → Pipeline.Info)
+
+/-- a frame the `-c` test rejects: TCP or UDP whose verdict bit is false -/
+def rejected : Item Keylog.Key → Bool
+  | .frame p => !p.csumOk && p.l4 != .other
+  | .dsb _ => false
+
+theorem classify_rejected (o : Opts) (it : Item Keylog.Key) (h : (!rejected it) = false) :
+    ∃ w, classify (optC o true) it = .ignore w := by
+  cases it with
+  | dsb ks => simp [rejected] at h
+  | frame p =>
+    simp only [rejected, Bool.not_eq_false', Bool.and_eq_true, Bool.not_eq_true', bne_iff_ne, ne_eq] at h
+    obtain ⟨hc, hl⟩ := h
+    simp only [classify, optC, hc]
+    cases hp : p.l4 with
+    | other => exact absurd hp hl
+    | tcp =>
+      simp only
+      split
+      · exact ⟨_, rfl⟩
+      · exact ⟨_, rfl⟩
+    | udp =>
+      simp only
+      cases p.payload with
+      | nil => exact ⟨_, rfl⟩
+      | cons b0 r => exact ⟨_, rfl⟩
+
+theorem classify_kept (o : Opts) (it : Item Keylog.Key) (h : (!rejected it) = true) :
+    classify (optC o false) it = classify (optC o true) it := by
+  cases it with
+  | dsb ks => rfl
+  | frame p =>
+    simp only [rejected, Bool.not_eq_true', Bool.and_eq_false_imp, Bool.not_eq_true', bne_eq_false_iff_eq] at h
+    simp only [classify, optC]
+    cases hp : p.l4 with
+    | other => rfl
+    | tcp =>
+      have hc : p.csumOk = true := by
+        cases hcs : p.csumOk with
+        | true => rfl
+        | false => have := h hcs; rw [hp] at this; cases this
+      simp [hc]
+    | udp =>
+      have hc : p.csumOk = true := by
+        cases hcs : p.csumOk with
+        | true => rfl
+        | false => have := h hcs; rw [hp] at this; cases this
+      simp [hc]
+
+/-- **C11 for the loop and both composed machines.** With `-c`, the frames `run()` hands to the writer are those of the
+    run WITHOUT `-c` over the capture from which exactly the rejected frames — TCP / UDP frames whose verdict bit
+    `csumOk` is false — have been removed; all other items (DSBs, non-IP frames, frames with a good checksum, with an
+    empty payload, of other transports) stay where they are. Any key log, start key log, options. -/
+theorem checksum_filter_loop (o : Opts) (keys : List Keylog.Key) (xs : List (Item Keylog.Key)) :
+    let TM := Pipeline.tlsMachine H P info
+    let QM := QuicPipeline.quicMachine mask H P info
+    exportAll TM QM (optC o true) (runItems TM QM (optC o true) ⟨keys, [], []⟩ xs) =
+      exportAll TM QM (optC o false) (runItems TM QM (optC o false) ⟨keys, [], []⟩ (xs.filter fun it => !rejected it)) := by
+  intro TM QM
+  rw [runItems_filter_ignored TM QM (optC o true) (fun it => !rejected it) xs
+    (fun it _ h => classify_rejected o it h)]
+  have hcl : ∀ it ∈ xs.filter (fun it => !rejected it), classify (optC o true) it = classify (optC o false) it := by
+    intro it hit
+    exact (classify_kept o it (List.mem_filter.mp hit).2).symm
+  have := runItems_opts_congr TM QM (optC o false) (optC o true) (connC true) (qconnC true) rfl
+    (fun p => rfl) (fun s p => rfl) (fun p => rfl) (fun s kl p d v => by
+      obtain ⟨so, ss, sc, sm, cm, v6, sst, raised⟩ := s
+      simp only [QM, QuicPipeline.quicMachine, qconnC]
+      cases raised <;> rfl) (fun s => rfl) (fun s => rfl) _ hcl ⟨keys, [], []⟩
+  simp only [List.map_nil] at this
+  rw [this]
+  simp only [exportAll, List.flatMap_map]
+  rfl
+
+end C11
+
 end TLX.Props.ExportInputs
